@@ -87,7 +87,7 @@ def satisfied(w):
     return z3.Or(w['deleted'], z3.And(hp, z3.UGE(pv, w['lsn'])))
 
 
-def check_maintenance(ctx):
+def check_maintenance(ctx, confirm=None):
     pat = r'^journal::manager::<impl>::maintenance$'
     ob = ctx.ob('maintenance/evict-rule', 'JournalManager::maintenance: unlinks only the oldest queued journal and only when each of its watermarks is satisfied '
                 '(keyspace deleted, or persisted seqno >= lsn); queue and byte counter follow; a failed unlink changes nothing', [pat])
@@ -157,7 +157,7 @@ def check_maintenance(ctx):
                 problem = 'the journal byte counter does not match the journals that remain'
         if problem:
             bad.append((p, problem))
-    finish(ctx, ob, bad, 'journal-manager/evicts-needed-journal')
+    finish(ctx, ob, bad, 'journal-manager/evicts-needed-journal', confirm=confirm)
 
 
 def check_stragglers(ctx):
@@ -352,14 +352,13 @@ def check_tick(ctx):
     finish(ctx, ob, bad, 'worker/rotation-not-atomic', native=False)
 
 
-def finish(ctx, ob, bad, role, native=True):
-    native = True
+def finish(ctx, ob, bad, role, native=True, confirm=None):
     if ob.reach == 0:
         ob.status = 'undecided'; ob.detail = ob.detail or 'vacuous'
     elif not bad:
         ob.status = 'discharged'; ob.sample = {'paths': ob.reach}
     else:
-        ctx.candidate(ob, role, f'{ob.id}: {bad[0][1]}', confirm=(lambda: native_eviction(ctx)))
+        ctx.candidate(ob, role, f'{ob.id}: {bad[0][1]}', confirm=confirm or (lambda: native_eviction(ctx)))
 
 
 # ------------------------------------------------------------------ native
